@@ -734,3 +734,76 @@ func DistinctBitmaps(r *rand.Rand, k, nDistinct, repeat int) KeySet {
 	m[pack(append(append([]byte{}, path...), 0xf, 0xf))] = struct{}{}
 	return KeySet{Keys: uniqSorted(m), Class: fmt.Sprintf("distinct-bitmaps-k%d", k)}
 }
+
+
+// HugeTailSet: a few keys whose tails behind their last branching point are 64 KiB and longer (beyond every 16-bit
+// length field), next to ordinary keys; also a key that is a prefix of a huge one.
+func HugeTailSet(r *rand.Rand) KeySet {
+	m := map[string]struct{}{}
+	fill := func(n int) string { return strings.Repeat(string([]byte{byte(0x41 + r.Intn(50))}), n) }
+	lens := []int{65535, 65536, 65537, 70000, 131072 + 3}
+	heads := []string{"a", "bag/", "c", "fo"}
+	for i, h := range heads {
+		if i < 2+r.Intn(2) {
+			m[h+fill(lens[r.Intn(len(lens))])] = struct{}{}
+		}
+	}
+	for i := 0; i < 3+r.Intn(5); i++ {
+		m[randStr(r, alphabets[0], 1, 4)] = struct{}{}
+	}
+	m["bag/"] = struct{}{}
+	m["cat"] = struct{}{}
+	m["fox/tail"] = struct{}{}
+	return KeySet{uniqSorted(m), "hugetails"}
+}
+
+// DirectoryThenTail: a "directory" of more than 10 keys that share a prefix P and differ in the byte after it (a
+// 257-bit node in the builder's big-node phase when it is the root or just below big nodes), followed by a few keys
+// that branch off INSIDE P (they share only a shorter prefix with the directory).  With equal values on the last
+// directory entry and on those followers (ValueAfterDir), de-duplication drops the followers: their range starts in
+// the directory and leaves it.  below > 0 puts the whole thing under a big root of `below` other first bytes.
+func DirectoryThenTail(r *rand.Rand, below int) (KeySet, int) {
+	plen := 2 + r.Intn(6)
+	P := randStr(r, []byte("abcdefgh/"), plen, plen)
+	head := ""
+	if below > 0 {
+		head = "m"
+	}
+	var keys []string
+	seen := map[string]struct{}{}
+	add := func(k string) {
+		if _, ok := seen[k]; !ok {
+			seen[k] = struct{}{}
+			keys = append(keys, k)
+		}
+	}
+	for b := 0; b < below; b++ {
+		add(string([]byte{byte(0x30 + b)}) + randStr(r, alphabets[0], 0, 3))
+	}
+	nd := 11 + r.Intn(10)
+	for i := 0; i < nd; i++ {
+		add(head + P + string([]byte{byte(0x41 + 2*i)}) + randStr(r, alphabets[0], 0, 2))
+	}
+	dirLast := head + P + string([]byte{byte(0x41 + 2*(nd-1))})
+	_ = dirLast
+	// followers: differ from P at position cut (a greater byte there), so they sort after the directory
+	nf := 1 + r.Intn(4)
+	for i := 0; i < nf; i++ {
+		cut := 1 + r.Intn(plen-1)
+		b := []byte(P)
+		b[cut] = b[cut] + byte(1+i)
+		add(head + string(b[:cut+1]) + randStr(r, alphabets[0], 0, 3))
+	}
+	for b := 0; b < below/2; b++ {
+		add(string([]byte{byte(0x70 + b)}) + randStr(r, alphabets[0], 0, 3))
+	}
+	sort.Strings(keys)
+	// index of the last directory key in the sorted list
+	last := -1
+	for i, k := range keys {
+		if strings.HasPrefix(k, head+P) {
+			last = i
+		}
+	}
+	return KeySet{keys, "directory-then-tail"}, last
+}
